@@ -92,6 +92,13 @@ func (e *Engine) SetFault(f func(method string, n int, attr bool) string) {
 	e.counters = map[string]int{}
 }
 
+// HasFault: a fault script is installed.
+func (e *Engine) HasFault() bool {
+	e.mu.Lock()
+	defer e.mu.Unlock()
+	return e.FaultAt != nil
+}
+
 func (e *Engine) ResetCounters() {
 	e.mu.Lock()
 	defer e.mu.Unlock()
